@@ -6,7 +6,7 @@ import math
 import random as _random
 from fractions import Fraction
 from decimal import Decimal
-from common import cnat, cZ, clist
+from common import cnat, cN, cZ, clist
 
 ID = "C15"
 IMPORTS = ("From Coq Require Import Floats. "
@@ -17,7 +17,7 @@ VERDICT = "c15_verdict"
 EXPLAIN = "c15_explain"
 CASES_PER_FILE = 150
 CASE_TIMEOUT = 20
-TIERS = {"quick": {"n": 2500}, "thorough": {"n": 60000}}
+TIERS = {"quick": {"n": 4000}, "thorough": {"n": 80000}}
 FUEL = 4000
 RULE = ("calls of backoff / backoff_iter(+ at most `take` next() calls) with binary64 start/stop/factor built around "
         "start*factor^k +-{0,1,2} ulp (subnormal, tiny, ordinary, huge, overflowing magnitudes; start 0/-0.0; stop<1), "
@@ -183,7 +183,7 @@ def gen_valid(rng, tier):
     jitter = _jitter(rng, jit_on)
     est = _est_steps(start, stop, factor)
     r = rng.random()
-    long_ok = 2300 if (tier == "thorough" or rng.random() < 0.02) else 60
+    long_ok = 2300 if rng.random() < 0.01 else 60
     if r < 0.42 and est <= long_ok:
         count = None
         take = rng.choice([1, 2, 3, 5, 8, 40, 40, 80, 80]) if est <= 60 else rng.choice([3, 2400, 2400])
@@ -385,7 +385,7 @@ def to_coq(case, obs):
         "ApiList" if case["api"] == "list" else "ApiIter", cfloat(case["start"]), cfloat(case["stop"]),
         _count(case["count"]), cfloat(case["factor"]), cfloat(fhex(jf)), cnat(case["take"]))
     return "mkCase %s %s %s (mkObs %s %s)" % (
-        p, cnat(FUEL), clist(cfloat(fhex(d)) for d in draws), clist(cfloat(v) for v in vals), _END[obs["end"]])
+        p, cN(FUEL), clist(cfloat(fhex(d)) for d in draws), clist(cfloat(v) for v in vals), _END[obs["end"]])
 
 
 def corrupt(case, obs):
